@@ -31,10 +31,17 @@
                   -> [eq] [cmp] [eq] [is_zero L; is_zero R]
      11 gt_pair   a[2] = g = e(G1, G2) (12 coordinates), a[3] = [s1; s2; t1; t2; mode; r]
                   -> as gt_rel;  13 gt_params -> a[1] a[2]
-     12 poly_rel  a[0] = [cfg; 1; N], a[1] = [p], a[2] = p coeffs, a[3] = q coeffs, a[4] = [eL; eR]
-                  -> [dense eq] [dense eq] [is_zero L; is_zero R] [sparse eq] [sparse eq] [deg L; deg R]
+     12 poly_rel  a[0] = [cfg; 1; N], a[1] = [p], a[2] = P coeffs, a[3] = Q coeffs, a[4] = [eL; eR], a[5] = R coeffs,
+                  a[6] = [f], a[7] = SA raw terms [d0; c0; d1; c1; ...], a[8] = SB raw terms, a[9] = [n; h; g] (radix-2
+                  domain size, coset offset, group generator).  eL, eR both < 100 (dense-valued, PolyExprs.dexpr)
+                  or both >= 100 (sparse-valued, PolyExprs.sexpr)
+                  -> [L==R; R==L] [hash L = hash R] [L.is_zero; R.is_zero; L==zero(); R==zero()]
+                     [L.degree(); R.degree()] [stored entries of L; of R]
+                     [X(L)==X(R); hash] (X = conversion to the other representation)
+                     [ev(L)==ev(R); hash; ev(L)==ev(X(L)); ev(R)==ev(X(R))]  (Evaluations over the domain)
+                  status [2] = some operator / degree() panicked
 *)
-From V Require Import Base.Word Base.Field C15.BigIntModel C03.CurveExec C19.OrdModel C19.Exprs.
+From V Require Import C08.Model Base.Word Base.Field C15.BigIntModel C03.CurveExec C19.OrdModel C19.Exprs C19.PolyExprs.
 
 Definition ok (r : list (list Z)) : list (list Z) := [0] :: r.
 Definition unsupported : list (list Z) := [[9]].
@@ -174,21 +181,60 @@ Section RunField.
     end.
 
   (* ---- polynomials over F (a prime field) ---- *)
+  Fixpoint spairs (l : list Z) : list (nat * T) :=
+    match l with d :: c :: t => (Z.to_nat d, fof F [c]) :: spairs t | _ => [] end.
+  Definition rd (l : list T) : list E := map repr l.
+  Definition rs (s : list (nat * T)) : list (Z * E) := map (fun t => (Z.of_nat (fst t), repr (snd t))) s.
+  Definition pres (r : res (list (list Z))) : list (list Z) :=
+    match r with ROk v => ok v | RPanic => [[2]] | RFuel => [[7]] end.
+  Definition zlen {A} (l : list A) : Z := Z.of_nat (length l).
+
   Definition run_poly (op : Z) (a : list (list Z)) : list (list Z) :=
     match op with
     | 12 =>
-        let p := map (fun v => fof F [v]) (arg 2 a) in
-        let q := map (fun v => fof F [v]) (arg 3 a) in
-        let L := map repr (pexpr F (argz 4 0 a) p q) in
-        let R := map repr (pexpr F (argz 4 1 a) p q) in
-        let deq := dense_eqb (c_eqb C) L R in
-        let SL := sparse_of_dense (c_is0 C) 0 L in
-        let SR := sparse_of_dense (c_is0 C) 0 R in
-        let seq := sparse_eqb (c_eqb C) SL SR in
-        ok [[b2z deq]; [b2z deq];
-            [b2z (dense_is_zero (c_is0 C) L); b2z (dense_is_zero (c_is0 C) R)];
-            [b2z seq]; [b2z seq];
-            [Z.max 0 (Z.of_nat (length L) - 1); Z.max 0 (Z.of_nat (length R) - 1)]]
+        let fv l := map (fun v => fof F [v]) l in
+        let deq := dense_eqb (c_eqb C) in
+        let seq := sparse_eqb (c_eqb C) in
+        let eL := argz 4 0 a in let eR := argz 4 1 a in
+        let f := fof F [argz 6 0 a] in
+        let n := Z.to_nat (argz 9 0 a) in
+        let h := fof F [argz 9 1 a] in let g := fof F [argz 9 2 a] in
+        (* DensePolynomial::from_coefficients_vec = truncate_leading_zeros *)
+        let P := trim (fis0 F) (fv (arg 2 a)) in
+        let Q := trim (fis0 F) (fv (arg 3 a)) in
+        let R := trim (fis0 F) (fv (arg 5 a)) in
+        if (eL <? 100) && (eR <? 100) then
+          pres (SA <- s_from_vec F (spairs (arg 7 a)) ;; SB <- s_from_vec F (spairs (arg 8 a)) ;;
+                L <- dexpr F P Q R f SA SB n h g eL ;; R' <- dexpr F P Q R f SA SB n h g eR ;;
+                dL <- d_degree F L ;; dR <- d_degree F R' ;;
+                sL <- d_to_sparse F L ;; sR <- d_to_sparse F R' ;;
+                eSL <- sev F n h g sL ;; eSR <- sev F n h g sR ;;
+                let l := rd L in let r := rd R' in
+                let cl := sparse_of_dense (c_is0 C) 0 l in let cr := sparse_of_dense (c_is0 C) 0 r in
+                let el := rd (dev F n h g L) in let er := rd (dev F n h g R') in
+                ROk [[b2z (deq l r); b2z (deq r l)]; [b2z (deq l r)];
+                     [b2z (dense_is_zero (c_is0 C) l); b2z (dense_is_zero (c_is0 C) r);
+                      b2z (deq l []); b2z (deq r [])];
+                     [Z.of_nat dL; Z.of_nat dR]; [zlen l; zlen r];
+                     [b2z (seq cl cr); b2z (seq cl cr)];
+                     [b2z (deq el er); b2z (deq el er); b2z (deq el (rd eSL)); b2z (deq er (rd eSR))]])
+        else if (100 <=? eL) && (100 <=? eR) then
+          pres (SA <- s_from_vec F (spairs (arg 7 a)) ;; SB <- s_from_vec F (spairs (arg 8 a)) ;;
+                L <- sexpr F P Q R f SA SB eL ;; R' <- sexpr F P Q R f SA SB eR ;;
+                dL <- s_degree F L ;; dR <- s_degree F R' ;;
+                cL <- s_to_dense F L ;; cR <- s_to_dense F R' ;;
+                eSL <- sev F n h g L ;; eSR <- sev F n h g R' ;;
+                let l := rs L in let r := rs R' in
+                let cl := rd cL in let cr := rd cR in
+                let el := rd eSL in let er := rd eSR in
+                ROk [[b2z (seq l r); b2z (seq r l)]; [b2z (seq l r)];
+                     [b2z (sparse_is_zero (c_is0 C) l); b2z (sparse_is_zero (c_is0 C) r);
+                      b2z (seq l []); b2z (seq r [])];
+                     [Z.of_nat dL; Z.of_nat dR]; [zlen l; zlen r];
+                     [b2z (deq cl cr); b2z (deq cl cr)];
+                     [b2z (deq el er); b2z (deq el er);
+                      b2z (deq el (rd (dev F n h g cL))); b2z (deq er (rd (dev F n h g cR)))]])
+        else unsupported
     | _ => unsupported
     end.
 
